@@ -40,14 +40,17 @@ META = {
     "rule": "one case = (heartbeat interval, first-tick phase, peer policy, run length): the real heartbeat_timer_task and "
             "socket_read_task run under a virtual clock against a reactive scripted peer (silent / periodic traffic below, at, "
             "above the interval / bursts then silence / probe answers delayed 0..2.5 intervals / wrong, missing, non-numeric, "
-            "leniently spelled TestReqID / inbound TestRequests with and without 112 / application-initiated probes); "
+            "leniently spelled TestReqID / inbound TestRequests with and without 112 / application-initiated probes / "
+            "heartbeat-protocol traffic behind a sequence gap: answers numbered above the expected number then gap fill, "
+            "inbound TestRequests behind a gap, all traffic behind an unfilled gap, partial fills and re-sends); "
             "non-trivial when at least one TestRequest is written or the peer sends at least 3 messages; distinct by canonical "
             "(hb, concrete event list)",
     "trusted_base": [
         "virtual-time event loop of harness/c12.py (SelectorEventLoop subclass, time.time patched to the same clock): "
         "asyncio.sleep(1.0) is taken to wake exactly 1 s later; wall-clock drift, scheduling latency and float rounding of "
         "real time.time() values are not modelled (scenario times are dyadic, so the float comparisons are exact)",
-        "inbound messages are valid, in-sequence frames built by the harness; the session is put into ACTIVE by a real Logon exchange",
+        "inbound messages are valid frames built by the harness, numbered at the expected number or above it (a scripted "
+        "peer that loses messages and gap-fills); the session is put into ACTIVE by a real Logon exchange",
     ],
     "assumptions": ["virtual time >= 1 s after the Unix epoch (int(time.time()) != 0)",
                     "ticks are exactly 1 s apart (no drift), drain() never blocks"],
